@@ -137,3 +137,38 @@ def mc_step(ctx, name, shapes, max_nonfloor, alpha, held, compnames, invariants,
     ctx.add_tlc({'generated': gen, 'distinct': dis}, f'MC_Step[{name}] shapes={shapes} alpha={alpha} comps={compnames} invariants={invariants}')
     ctx.log(f'MC_Step[{name}]: {dis} distinct states, {gen} generated')
     return dis
+
+
+def history_part(ctx, prefixes, files, nsteps, seeds):
+    """long guided histories of shipped configurations validated step by step, with history variables, by Trace_History"""
+    from harness import boot, history
+
+    items = []
+    for fn in files:
+        for s in seeds:
+            items.append((fn, os.path.join(boot.REPO, 'yaml', fn), ctx.seed * 7 + s))
+    paths, stats = history.run_histories(os.path.join(ctx.work, 'hist'), items, nsteps)
+    n_viol = 0
+    for (name, src, seed), (p, res, bad) in zip(items, history.validate(paths)):
+        ctx.add_tlc(res, f'Trace_History {name} seed {seed}')
+        for rid, clauses in bad:
+            mine = [c for c in clauses if any(c.startswith(x) for x in prefixes) or c == 'continuity']
+            if mine:
+                n_viol += 1
+                rec = None
+                with open(p) as f:
+                    for line in f:
+                        r = json.loads(line)
+                        if r['id'] == rid:
+                            rec = r
+                            break
+                ctx.violation(f"history of {name} (seed {seed}), step {rid}: {','.join(mine)} on [{sst(rec['st'])}] {rec['a']} -> [{sst(rec['next'])}]",
+                              {'kind': 'history', 'config': name, 'seed': seed, 'nsteps': nsteps, 'step': rid, 'clauses': mine})
+            elif any(c.startswith('DRIFT') for c in clauses):
+                ctx.drift(f'history of {name} (seed {seed}), step {rid}: step differs from the operational model')
+        os.remove(p)
+    steps_total = sum(s[0] for s in stats)
+    ctx.add_counts(evaluations=steps_total, nontrivial=sum(s[3] for s in stats), traces=len(items))
+    ctx.add_part('long histories (Trace_History)', files=files, seeds=len(seeds), steps=steps_total,
+                 episodes=sum(s[1] for s in stats), actuations_that_changed_something=sum(s[2] for s in stats), violations=n_viol)
+    return n_viol
